@@ -37,8 +37,11 @@ func HC01_gounionsCompiles() {
 	geo := vfTypeCheck("example.com/mod/geo", []string{"/m/geo/geo.go"}, []string{
 		"package geo\n\ntype Unit string\n\ntype Base struct {\n\tUnit Unit `json:\"unit\"`\n\tScale int\n\tKinds []Unit\n}\n"}, nil)
 	src := "package p\n\nimport \"example.com/mod/geo\"\n\nvar _ geo.Unit\n\n" +
-		"type Shape interface{ isShape() }\n\ntype Other interface{ isOther() }\n\n" +
-		"type Shapes []Shape\n\ntype ShapeMap map[string]Shape\n\n" +
+		[]string{"type Shape interface{ isShape() }\n\ntype Other interface{ isOther() }\n\n" + "type Shapes []Shape\n\ntype ShapeMap map[string]Shape\n\n",
+			// the named containers of unions declared above the interfaces
+			"type Shapes []Shape\n\ntype ShapeMap map[string]Shape\n\n" + "type Shape interface{ isShape() }\n\ntype Other interface{ isOther() }\n\n",
+			// one container only, above the interface (the map type of the holders is then the slice type)
+			"type Shapes []Shape\n\ntype ShapeMap = Shapes\n\n" + "type Shape interface{ isShape() }\n\ntype Other interface{ isOther() }\n\n"}[vfChoice("containersFirst", 3)] +
 		"type Circle struct{ R int }\n\nfunc (Circle) isShape() {}\nfunc (Circle) isOther() {}\n\n" +
 		"type Square struct{ W float64 }\n\nfunc (Square) isShape() {}\n\n" +
 		holders[vfChoice("holder", len(holders))]
